@@ -5,6 +5,7 @@ import (
 	"math/rand"
 	"os"
 	"path/filepath"
+	"sort"
 	"strings"
 	"sync"
 	"time"
@@ -40,6 +41,7 @@ type c18Query struct {
 type c18Scenario struct {
 	Kind    string     `json:"kind"` // recv | sent | concurrent
 	Colon   bool       `json:"colon_names"`
+	Note    string     `json:"note,omitempty"`
 	Records []c18Rec   `json:"records"`
 	Queries []c18Query `json:"queries,omitempty"`
 }
@@ -263,6 +265,31 @@ func c18Run(c *Ctx, idx int, rng *rand.Rand, sc *c18Scenario, dir string) {
 		was = lg.WasSent
 	}
 
+	// one scenario in five: a day file of the past got a long run of NULs appended (what a
+	// crash in the middle of a write can leave); everything before it is still readable,
+	// and an unreadable rest of a file is no record of anything
+	if rng.Intn(5) == 0 {
+		today := dayOf(time.Now())
+		var cands []string
+		_ = filepath.Walk(dir, func(p string, info os.FileInfo, err error) error {
+			if err == nil && !info.IsDir() && info.Size() > 0 {
+				if d := filepath.Base(filepath.Dir(p)) + filepath.Base(p); d != today {
+					cands = append(cands, p)
+				}
+			}
+			return nil
+		})
+		if len(cands) > 0 {
+			sort.Strings(cands)
+			p := cands[rng.Intn(len(cands))]
+			if fh, err := os.OpenFile(p, os.O_APPEND|os.O_WRONLY, 0o644); err == nil {
+				_, _ = fh.Write(make([]byte, 70000+rng.Intn(70000)))
+				fh.Close()
+				sc.Note = "damaged day file: " + strings.TrimPrefix(p, dir)
+				res.Count("scenarios_with_a_damaged_day_file", 1)
+			}
+		}
+	}
 	// queries
 	nq := 24
 	tAt := func() time.Time {
